@@ -220,8 +220,8 @@ def subchecks():
     subs = []
     for op in ("sigmoid", "tanh", "selu", "bce_logits"):
         subs.append(SubCheck(op, check_elementwise, (lambda op=op: elementwise_cases(op)),
-                             quick=600, thorough=20000, shards_quick=1, shards_thorough=4))
+                             quick=1500, thorough=20000, shards_quick=2, shards_thorough=4))
     for op in ("softmax", "log_softmax", "cross_entropy"):
         subs.append(SubCheck(op, check_logits, (lambda op=op: logit_cases(op)),
-                             quick=600, thorough=20000, shards_quick=1, shards_thorough=4))
+                             quick=1500, thorough=20000, shards_quick=2, shards_thorough=4))
     return subs
